@@ -310,6 +310,11 @@ pub struct ProbeScenario {
     pub mode: String,
     /// gate: signature index
     pub sig: usize,
+    /// gate: how the function is named: checked (typed pointer, `when_called`) | unchecked_typed
+    /// (typed pointer, `when_called_unchecked`) | unchecked_untyped (`func_unchecked!`-style
+    /// pointer, `when_called_unchecked`) | checked_untyped (untyped pointer, `when_called`)
+    #[serde(default = "default_entry")]
+    pub entry: String,
     pub value: bool,
     /// boolregs/conv: arena base and function offset of the synthetic target
     pub arena: u64,
@@ -324,6 +329,10 @@ pub struct ProbeScenario {
     pub regs: Vec<Vec<u64>>,
     pub rets: Vec<Vec<u64>>,
     pub classes: Vec<String>,
+}
+
+fn default_entry() -> String {
+    "checked".into()
 }
 
 pub fn generate(profile: &str, seed: u64, index: u64) -> ProbeScenario {
@@ -360,8 +369,9 @@ pub fn generate(profile: &str, seed: u64, index: u64) -> ProbeScenario {
             classes.push("thunk-target".into());
         }
     }
+    let entry = ["checked", "unchecked_untyped", "unchecked_typed", "checked_untyped"][((index / 3 / N_SIGS as u64) % 4) as usize];
     if mode == "gate" {
-        classes.push(format!("sig{sig}-{value}"));
+        classes.push(format!("sig{sig}-{value}-{entry}"));
     }
     let n = 8;
     let mut regs = Vec::new();
@@ -387,6 +397,7 @@ pub fn generate(profile: &str, seed: u64, index: u64) -> ProbeScenario {
         index,
         mode: mode.into(),
         sig,
+        entry: entry.into(),
         value,
         arena,
         off,
@@ -429,11 +440,31 @@ pub fn execute(sc: &ProbeScenario, sh: &Shared) -> Value {
             let mark = interpose::ledger_len();
             interpose::arm(true);
             sh.note(PH_INSTALL, 0, sc.sig as u64, 0);
-            let r = catch_unwind(AssertUnwindSafe(|| inj.when_called(ptr).will_return_boolean(sc.value)));
+            let r = catch_unwind(AssertUnwindSafe(|| unsafe {
+                match sc.entry.as_str() {
+                    "unchecked_typed" => inj.when_called_unchecked(ptr).will_return_boolean(sc.value),
+                    "unchecked_untyped" => inj.when_called_unchecked(FuncPtr::new(addr as *const (), "")).will_return_boolean(sc.value),
+                    "checked_untyped" => inj.when_called(FuncPtr::new(addr as *const (), "")).will_return_boolean(sc.value),
+                    _ => inj.when_called(ptr).will_return_boolean(sc.value),
+                }
+            }));
             interpose::arm(false);
             let ledger = interpose::ledger_since(mark);
             let after: Vec<u8> = unsafe { std::slice::from_raw_parts(addr as *const u8, 16).to_vec() };
+            // When the function is named without its type the library cannot know the return
+            // type: refusing a bool function is then within the statement ("accepted ONLY for
+            // bool"), accepting a non-bool one is not.
+            let typed = sc.entry == "checked";
+            if !typed {
+                *probes.entry(format!("gate_entry_{}", sc.entry)).or_insert(0) += 1;
+            }
             match (r, is_bool) {
+                (Err(_), true) if !typed => {
+                    digest ^= 4;
+                    if after != before {
+                        v("forced-boolean-refusal-modified-function", &["C10"], format!("`{name}` ({}): entry bytes changed by a refused request", sc.entry));
+                    }
+                }
                 (Ok(()), true) => {
                     digest ^= 1;
                     // every call returns exactly the value, whatever the arguments
@@ -451,7 +482,7 @@ pub fn execute(sc: &ProbeScenario, sh: &Shared) -> Value {
                     }
                 }
                 (Ok(()), false) => {
-                    v("forced-boolean-accepted-for-non-bool-function", &["C10"], format!("will_return_boolean({}) was accepted for a function of type `{name}`, whose return type is not bool (entry bytes now {:02x?})", sc.value, after));
+                    v("forced-boolean-accepted-for-non-bool-function", &["C10"], format!("will_return_boolean({}) was accepted for a function of type `{name}` (named: {}), whose return type is not bool (entry bytes now {:02x?})", sc.value, sc.entry, after));
                 }
                 (Err(p), true) => {
                     v("forced-boolean-refused-for-bool-function", &["C10"], format!("will_return_boolean refused `{name}`: {}", panic_msg(&p)));
@@ -461,7 +492,7 @@ pub fn execute(sc: &ProbeScenario, sh: &Shared) -> Value {
                     *faults.entry("boolean_refused_for_non_bool".into()).or_insert(0) += 1;
                     let msg = panic_msg(&p);
                     if !msg.contains("Signature mismatch") {
-                        v("forced-boolean-refusal-wrong-message", &["C10"], format!("`{name}`: refusal message {msg:?}"));
+                        v("forced-boolean-refusal-wrong-message", &["C10"], format!("`{name}` ({}): refusal message {msg:?}", sc.entry));
                     }
                     if !ledger.is_empty() {
                         v("forced-boolean-refusal-after-os-event", &["C10"], format!("`{name}`: the refusal came after OS events {:?}", ledger));
